@@ -25,7 +25,13 @@ def build_tour(edges, init=None, dedup=True, max_paths=None, share_prefix=True):
         return [], {"edges": 0, "states": 0}
     init_k = key(init) if init is not None else key(edges[0]["from"])
     out = {}
+    seen_e = set()
     for e in edges:
+        if dedup:
+            k = (key(e["from"]), key(e["ev"]))
+            if k in seen_e:
+                continue
+            seen_e.add(k)
         out.setdefault(key(e["from"]), []).append(e)
     parent = {init_k: None}
     q = deque([init_k])
@@ -64,7 +70,7 @@ def build_tour(edges, init=None, dedup=True, max_paths=None, share_prefix=True):
             longest = max(longest, len(pre) + 1)
         if max_paths and len(scheds) >= max_paths:
             break
-    return scheds, {"edges": len(edges), "states": len(parent), "schedules": len(scheds), "longest": longest,
+    return scheds, {"edges": len(edges), "distinct_edges": len(seen_e) if dedup else len(edges), "states": len(parent), "schedules": len(scheds), "longest": longest,
                     "steps": sum(len(s) for s in scheds)}
 
 
